@@ -788,6 +788,7 @@ def check_fast(case, r, bad):
     # (e.g. seed 1: degrees (1,3,2), C^-1/C^0 knots, K_fast = 0); when it was diagnosed for the
     # stiffness call of this case its consequences (K*1, symmetry) are not reported a second time
     k_masked = any(c == 'fast-stiffness:skip-stop' for c, _ in cmp_)
+    m_masked = any(c == 'fast-mass:skip-stop' for c, _ in cmp_)      # same defect, mass variant
     M, K, Mf, Kf = (np.load(r[k]) for k in ('M', 'K', 'Mf', 'Kf'))
     vol = float(F(case['volume']))
     npts = 1
@@ -799,7 +800,7 @@ def check_fast(case, r, bad):
     # sum of the entries = measure: generic rounding/table bound + one 4*tol per stored entry
     tol_s = ((npts * 4 + 256) * float(EPS) * (mp + 1) ** (2 * d) + 64 * d * float(orc.TABLE_DEFECT)) * vol \
         + nnz * 4 * tol * max(1.0, np.abs(M).max())
-    if abs(Mf.sum() - vol) > tol_s:
+    if not m_masked and abs(Mf.sum() - vol) > tol_s:
         bad.append(('fast-mass-sum:' + label, 'entries of mass_fast sum to %r, measure of the domain %r (degrees %s)'
                     % (Mf.sum(), vol, case['degrees'])))
     rownnz = int((np.load(r['Kf_pat']) != 0).sum(axis=1).max())
@@ -808,7 +809,7 @@ def check_fast(case, r, bad):
     if not k_masked and np.abs(Kf.sum(axis=1)).max() > tol_k:
         bad.append(('fast-stiffness-kernel:' + label, '|K_fast * 1|max = %g (bound %g, degrees %s)'
                     % (np.abs(Kf.sum(axis=1)).max(), tol_k, case['degrees'])))
-    if np.abs(Mf - Mf.T).max() > 8 * tol * max(1.0, np.abs(M).max()) or (not k_masked and np.abs(Kf - Kf.T).max() > 8 * tol * sc):
+    if (not m_masked and np.abs(Mf - Mf.T).max() > 8 * tol * max(1.0, np.abs(M).max())) or (not k_masked and np.abs(Kf - Kf.T).max() > 8 * tol * sc):
         bad.append(('fast-sym:' + label, 'fast matrices not symmetric within 8*tol'))
 
 
